@@ -86,6 +86,9 @@ def analyse_units(rep, units, funcs_re, member=None, check_increment=False):
         summ = tr.summ.get(tr.key(f), {})
         for v, ent in summ.items():
             req = ent[0]
+            if req and v == "M" and member is not None:
+                found.append((f, f.body, member, "dereferenced by the keyword handler before any end check: the dispatcher advances it past the "
+                              "keyword and calls the handler at once, so a file that ends with the keyword is read past its end"))
             if req and v != "M":
                 # is there a dispatcher that calls handlers with an unchecked iterator?
                 disp = [(g, s_) for g, s_, i in unchecked_sites if g.cls == f.cls or True]
@@ -170,7 +173,7 @@ def recursion_rule(rep):
 SMART = re.compile(r"^(const )?std::(shared_ptr|unique_ptr)<")
 
 
-def smart_pointer_rule(rep, funcs):
+def smart_pointer_rule(rep, funcs, scope_re=r"::(set|handle|add|register)[A-Z]\w*$", accepted=None, what="mtest"):
     """NULL-GUARD (contradiction rule): a smart-pointer *member* that the code itself treats as possibly null - it is compared with nullptr
     or reset somewhere in the analysed functions - is dereferenced only where it is known not to be null on the path: after
     raise_if(p == nullptr, ...), inside 'if (p != nullptr)' / 'if (p)', or after an assignment of a new object.  Keyword handlers run in
@@ -205,7 +208,7 @@ def smart_pointer_rule(rep, funcs):
             continue
         # the parsing phase only: setters and keyword handlers, which an input file calls in the order it likes; the functions of the
         # resolution run after completeInitialisation has validated the scheme and are not concerned
-        if not re.search(r"::(set|handle|add|register)[A-Z]\w*$", f.qname.split("(")[0]):
+        if not re.search(scope_re, f.qname.split("(")[0]):
             continue
         sites = {}
         for s_, n in f.stmts.items():
@@ -262,11 +265,11 @@ def smart_pointer_rule(rep, funcs):
         forward(f, ((),), el, ed)
         for p, s_ in sorted(bad.items()):
             key = "NULL-GUARD@%s#%s" % (f.qname.split("(")[0], p)
-            if key in NULL_ACCEPTED:
-                rep.ok("accepted %s: %s" % (key, NULL_ACCEPTED[key]))
+            if key in (accepted if accepted is not None else NULL_ACCEPTED):
+                rep.ok("accepted %s: %s" % (key, (accepted if accepted is not None else NULL_ACCEPTED)[key]))
                 continue
             rep.fail(key, "%s: %s dereferences '%s' on a path where it may be null (the member is compared with nullptr or reset elsewhere, and the "
-                     "keywords of an input file come in any order): a null dereference kills mtest with SIGSEGV" % (rel(f.short_loc(s_)), f.qname.split("(")[0], p))
+                     "keywords of an input file come in any order): a null dereference kills %s with SIGSEGV" % (rel(f.short_loc(s_)), f.qname.split("(")[0], p, what))
         for p in set(sites.values()) - set(bad):
             rep.ok("%s: '%s' is dereferenced only where it is known not to be null" % (f.qname.split("(")[0], p), sample=False)
     rep.count("dereferences of possibly-null smart-pointer members", nd)
